@@ -2083,10 +2083,12 @@ static int32_t parse_XTA(ParserBuilder *aParserBuilder,
     // Parse string
     int res = 0;
 
+    ch->parse_begin();
     if (utap_parse())
     {
         res = -1;
     }
+    ch->parse_end(res != 0);
 
     ch = NULL;
     return res;
@@ -2104,7 +2106,10 @@ static int32_t parseProperty(ParserBuilder *aParserBuilder, const std::string& x
     // Reset position tracking
     tracker.setPath(ch, xpath);
 
-    return utap_parse() ? -1 : 0;
+    ch->parse_begin();
+    int res = utap_parse() ? -1 : 0;
+    ch->parse_end(res != 0);
+    return res;
 }
 
 int32_t parse_XTA(const char *str, ParserBuilder *builder,
